@@ -122,7 +122,7 @@ def check_c05(tier):
                        "bundles under bit flips / truncation / insert / delete at every offset and random byte strings; Trace_Bundle requires: Extract=ok => "
                        "accepted with exactly the content at the indexed locations; Extract=err => rejected with an error; never a panic. "
                        "distinct_nontrivial = distinct files")
-    r = tlc("MC_BundleRead", "SPECIFICATION Spec\nCONSTANTS Bases = {1, 2, 3, 4, 5, 6}\nINVARIANTS UnmutatedReads UnknownSkipped OutOfBoundsRefused Bounded\nCHECK_DEADLOCK FALSE\n",
+    r = tlc("MC_BundleRead", "SPECIFICATION Spec\nCONSTANTS Bases = {1, 2, 3, 4, 5, 6, 7}\nINVARIANTS UnmutatedReads UnknownSkipped OutOfBoundsRefused Bounded\nCHECK_DEADLOCK FALSE\n",
             "C05/mc", timeout=3000)
     rep.add_tlc("MC_BundleRead", r)
     wd = workdir("C05")
